@@ -3,7 +3,9 @@
 (* C08: same seed, same run.  A group = one reference run (sequential      *)
 (* evaluator) followed by variants of the same configuration and seed      *)
 (* (parallel evaluator under several pool sizes with perturbed timing, a   *)
-(* cloned configuration, a repeated run).  Every variant must produce,     *)
+(* cloned configuration, a repeated run, other ways of supplying the       *)
+(* generator, objects and threads that solved other instances before).     *)
+(* Every variant must produce,                                             *)
 (* step by step, the digests of the reference run (projected stack, best,  *)
 (* counters; finally the decoded log): each variant refines the reference. *)
 (* Also: child generators are a function of the seed, different seeds give *)
@@ -12,32 +14,55 @@
 (***************************************************************************)
 EXTENDS Naturals, Sequences, TLC, Json, IOUtils
 Rec == ndJsonDeserialize(IOEnv.TRACE)
-VARIABLES l, ref, pos, mode, kids, exps
-svars == <<l, ref, pos, mode, kids, exps>>
+VARIABLES l, ref, pos, mode, kids, exps, classes
+svars == <<l, ref, pos, mode, kids, exps, classes>>
 
-TraceInit == l = 1 /\ ref = <<>> /\ pos = 0 /\ mode = "idle" /\ kids = <<>> /\ exps = <<>>
+\* "The same configuration on the same problem with the same seed": the reference is a stand-alone run (a fresh
+\* configuration object on a fresh thread, sequential evaluator, generator inserted).  What may differ between two such
+\* runs without being part of the configuration / problem / seed, one class of variant each -- every group has to show all:
+Required == { "again",          \* the same once more
+              "clone",          \* a cloned configuration object
+              "par",            \* parallel evaluator under several pool sizes, perturbed completion order
+              "supply-entry",   \* the generator supplied through the entry API (or_insert / or_insert_with)
+              "supply-guarded", \* ... through `if !contains { insert }`
+              "one-thread",     \* the same object solved another instance (bigger / smaller / other) before, on this thread
+              "used",           \* ... on another thread
+              "used-clone",     \* a clone of such a used object
+              "thread" }        \* this thread ran another object on another instance before
 
-RefStart == Rec[l].ev = "ref_start" /\ mode = "idle" /\ ref' = <<>> /\ pos' = 0 /\ mode' = "ref" /\ UNCHANGED <<kids, exps>>
-RefStep  == Rec[l].ev = "d" /\ mode = "ref" /\ ref' = Append(ref, Rec[l].digest) /\ UNCHANGED <<pos, mode, kids, exps>>
-RefEnd   == Rec[l].ev = "ref_end" /\ mode = "ref" /\ Rec[l].result = "ok" /\ mode' = "idle" /\ UNCHANGED <<ref, pos, kids, exps>>
-VarStart == Rec[l].ev = "var_start" /\ mode = "idle" /\ pos' = 0 /\ mode' = "var" /\ UNCHANGED <<ref, kids, exps>>
+TraceInit == l = 1 /\ ref = <<>> /\ pos = 0 /\ mode = "idle" /\ kids = <<>> /\ exps = <<>> /\ classes = {}
+
+RefStart == /\ Rec[l].ev = "ref_start" /\ mode = "idle" /\ ref' = <<>> /\ pos' = 0 /\ mode' = "ref" /\ classes' = {}
+            /\ UNCHANGED <<kids, exps>>
+RefStep  == Rec[l].ev = "d" /\ mode = "ref" /\ ref' = Append(ref, Rec[l].digest) /\ UNCHANGED <<pos, mode, kids, exps, classes>>
+RefEnd   == /\ Rec[l].ev = "ref_end" /\ mode = "ref" /\ Rec[l].result = "ok"
+            /\ Rec[l].seed_kept = 1
+            /\ mode' = "idle" /\ UNCHANGED <<ref, pos, kids, exps, classes>>
+VarStart == /\ Rec[l].ev = "var_start" /\ mode = "idle" /\ pos' = 0 /\ mode' = "var"
+            /\ classes' = classes \cup {Rec[l].class} /\ UNCHANGED <<ref, kids, exps>>
 VarStep  == /\ Rec[l].ev = "d" /\ mode = "var"
             /\ pos < Len(ref) /\ Rec[l].digest = ref[pos + 1]        \* identical, step by step
-            /\ pos' = pos + 1 /\ UNCHANGED <<ref, mode, kids, exps>>
+            /\ pos' = pos + 1 /\ UNCHANGED <<ref, mode, kids, exps, classes>>
 VarEnd   == /\ Rec[l].ev = "var_end" /\ mode = "var" /\ pos = Len(ref) /\ Rec[l].result = "ok"
             /\ Rec[l].seed_kept = 1                                   \* the supplied generator is still in place
-            /\ mode' = "idle" /\ UNCHANGED <<ref, pos, kids, exps>>
+            /\ mode' = "idle" /\ UNCHANGED <<ref, pos, kids, exps, classes>>
+\* a group is complete: every class of variant was shown to refine the reference
+GroupEnd == /\ Rec[l].ev = "group_end" /\ mode = "idle" /\ Required \subseteq classes
+            /\ UNCHANGED <<ref, pos, mode, kids, exps, classes>>
 \* child generators: same seed => same children, different seeds => different streams
 Children == /\ Rec[l].ev = "children" /\ mode = "idle"
             /\ \A j \in 1..Len(kids) : (kids[j].seed = Rec[l].seed) <=> (kids[j].kids = Rec[l].kids)
-            /\ Rec[l].first_draw_same = 1          \* no draw is made before the first component runs
-            /\ kids' = Append(kids, [seed |-> Rec[l].seed, kids |-> Rec[l].kids]) /\ UNCHANGED <<ref, pos, mode, exps>>
-\* experiment runner: the log of run r does not depend on the pool size (nor on completion order)
+            /\ Rec[l].first_draw_same = 1          \* no draw is made before the first component runs, whichever way
+                                                   \* the generator was supplied (Rec[l].supply)
+            /\ kids' = Append(kids, [seed |-> Rec[l].seed, kids |-> Rec[l].kids]) /\ UNCHANGED <<ref, pos, mode, exps, classes>>
+\* experiment runner: the log of run r on problem p (key) is the log of the stand-alone run (pool 0: a fresh configuration
+\* object on a fresh thread, seeded with the run number) -- whatever the pool size, the completion order, the other
+\* problems of the batch and the jobs a worker thread ran before
 Exp == /\ Rec[l].ev = "exp" /\ mode = "idle" /\ Rec[l].ok = 1
        /\ \A j \in 1..Len(exps) : (exps[j].key = Rec[l].key /\ exps[j].rn = Rec[l].rn) => exps[j].digest = Rec[l].digest
        /\ exps' = Append(exps, [key |-> Rec[l].key, rn |-> Rec[l].rn, digest |-> Rec[l].digest])
-       /\ UNCHANGED <<ref, pos, mode, kids>>
-TraceNext == l <= Len(Rec) /\ (RefStart \/ RefStep \/ RefEnd \/ VarStart \/ VarStep \/ VarEnd \/ Children \/ Exp) /\ l' = l + 1
+       /\ UNCHANGED <<ref, pos, mode, kids, classes>>
+TraceNext == l <= Len(Rec) /\ (RefStart \/ RefStep \/ RefEnd \/ VarStart \/ VarStep \/ VarEnd \/ GroupEnd \/ Children \/ Exp) /\ l' = l + 1
 TraceSpec == TraceInit /\ [][TraceNext]_svars
 TraceDone == PrintT(<<"TRACE_RESULT", TLCGet("stats").diameter - 1, Len(Rec)>>)
 =============================================================================
